@@ -18,6 +18,7 @@ def run(res):
     frames.mix_wrapper_single_draw(res)
     frames.no_inplace_on_dataset_values(res, FILES)
     frames.undefined_names(res, FILES, "mix-wrapper")
+    frames.seed_presence_by_identity(res, FILES)
     r, n, nt = rp.search(res.seed, thorough=(res.tier == "thorough"))
     add_direct(res, "bounded:mix-wrapper-contract", "bounded", r is None, backend="bounded", model=r,
                note="untouched sample + one-hot label, or lambda*x_i + (1-lambda)*x_j with the same j, lambda in the label; shapes unified by "
